@@ -68,8 +68,7 @@ def drive(tier):
                 for ch2 in CHAINS:          # WIF under every chain's prefix
                     bitcoin.SelectParams(ch2)
                     kk2, v2 = call(mk)
-                    if kk2 == "ret":
-                        R.add("key.wif", {"secret": b2l(sec), "compressed": comp}, v2[1], chain=ch2, _cost=500)
+                    R.add("key.wif", {"secret": b2l(sec), "compressed": comp}, v2[1] if kk2 == "ret" else dict(exc_info(v2), k="exc"), chain=ch2, _cost=500)
             # signatures over boundary and seeded digests
             ds = digests[(ki % 3) * 2:(ki % 3) * 2 + 2] + [gen.rbytes(r, 32)]
             if tier == "thorough":
